@@ -692,9 +692,23 @@ func runC18Mgmt(c C18MgmtCase, _ bool) *fOutcome {
 		return a
 	}
 	vBefore := probeSet()
+	// a reader that opens the file between the write and the reload keeps that very file (hard link):
+	// nothing that happens afterwards (reload, roll-back) may change what it holds, and the original
+	// file (hard link taken before the call) must never be written in place either
+	linkBefore, linkMid := filepath.Join(filepath.Dir(w.cfgPath), "link-before"), filepath.Join(filepath.Dir(w.cfgPath), "link-mid")
+	_ = os.Link(w.cfgPath, linkBefore)
+	var midContent []byte
+	midTaken := false
+	takeMid := func() {
+		if b, err := os.ReadFile(w.cfgPath); err == nil && os.Link(w.cfgPath, linkMid) == nil {
+			midContent, midTaken = b, true
+		}
+	}
 	switch c.Fault {
+	case "none":
+		verifhook.On("mgmt.after-write", takeMid)
 	case "reload-fails":
-		verifhook.On("mgmt.after-write", func() { _ = os.Unsetenv("VERIF_C18_SECRET") })
+		verifhook.On("mgmt.after-write", func() { takeMid(); _ = os.Unsetenv("VERIF_C18_SECRET") })
 	case "backlog-after-write":
 		verifhook.On("mgmt.after-write", func() {
 			// a message arrives on the route being (re)assigned between the write and the reload
@@ -714,6 +728,17 @@ func runC18Mgmt(c C18MgmtCase, _ bool) *fOutcome {
 	after, rerr := os.ReadFile(w.cfgPath)
 	out.Labels["fault-"+c.Fault] = true
 	out.Labels[fmt.Sprintf("status-%d", rec.Code)] = true
+	if b, err := os.ReadFile(linkBefore); err != nil || !bytes.Equal(b, before) {
+		out.Failure = ffail("C18", "file-written-in-place", 0, "the file that was the config before the mutation was overwritten in place (%d -> %d bytes, err %v): the replacement is not atomic", len(before), len(b), err)
+		return out
+	}
+	if midTaken {
+		out.Labels["mid-link-taken"] = true
+		if b, err := os.ReadFile(linkMid); err != nil || !bytes.Equal(b, midContent) {
+			out.Failure = ffail("C18", "file-written-in-place", 0, "the file a reader opened between write and reload was overwritten in place (%d -> %d bytes, err %v): the roll-back is not atomic", len(midContent), len(b), err)
+			return out
+		}
+	}
 	if rerr != nil {
 		out.Failure = ffail("C18", "config-file-lost", 0, "config file unreadable after the mutation: %v", rerr)
 		return out
